@@ -636,9 +636,9 @@ def run(ctx):
                         'literal values (CedarValueJson), unknowns; the function of an extension call is assumed to be a known extension function',
                         'the same expression-node round trip is decided for the programmatic syntax tree (AST -> PST through PstBuilder, PST -> AST through pst::Expr::into_expr and the ast builder), except extension calls (PST keys them by name strings)',
                         'protobuf (cedar-policy/src/proto/{policy,ast}.rs from the cedar-policy crate dump, message types = the prost-generated code of the dump build): the same two-run round trip per scope-constraint shape, effect and '
-                        'expression node kind (+ literal, 4 variables, 2 slots); the ast::Expr constructors, Expr::expr_kind, SlotId tests / constructors and EntityReference::euid of cedar-policy-core are logged one-line stubs; entity uids, names, '
+                        'expression node kind (+ literal, 4 variables, 2 slots), the whole template body and the template-link message; the ast::Expr constructors, TemplateBody::new, Template::link, Expr::expr_kind, SlotId tests / constructors and EntityReference::euid of cedar-policy-core are logged one-line stubs; entity uids, names, '
                         'literals and pattern elements are tokens with their own (undecided) conversion pairs; prost byte encoding is a library (native protobuf battery only)',
-                        'NOT covered: JSON (serde) serialisation itself, entity uids / literal values as JSON, policy sets, PST scope constraints / policies, protobuf TemplateBody / Policy / PolicySet / Entities / Request / schema messages']
+                        'NOT covered: JSON (serde) serialisation itself, entity uids / literal values as JSON, policy sets, PST scope constraints / policies, protobuf PolicySet / Entities / Request / schema messages']
     return ctx.finish('Solver-decided AST <-> EST round trip of the JSON policy format at three levels (expression nodes, scope constraints, whole template: effect, constraints, condition, annotations), executed from the MIR of ast/expr.rs, ast/expr_builder.rs and est/expr.rs: for every kind of expression node, AST -> EST '
                       '(generic walker, ExprBuilder::{unary_app, binary_app} dispatch, est::Builder) followed by EST -> AST (est::Expr::try_into_ast and the real ast constructors) yields a node of the same kind and operator '
                       'with the children in the same positions; the second run starts from the value the first one produced.')
